@@ -25,7 +25,7 @@
   Core Lean only (imported by the driver).
 -/
 import NngModel.Base.Bytes
-import NngModel.Generated.Consts
+import NngModel.Generated.C01
 import NngModel.Model.Msg
 
 namespace Nng.Sp
